@@ -80,6 +80,34 @@ def run(tier, seed):
             elif e != want:
                 ck.violation("strictly-earlier-than-now-minus-days", {"kind": "older"},
                              {"days": days, "now": str(now), "date": str(d), "impl": e, "want": want})
+        # the date the commands read: first line (split at '\n' only) starting with 'DeletionDate=', strictly parsed
+        from trashcli.parse_trashinfo.parse_deletion_date import parse_deletion_date
+        import re as _re
+        seps = ["\x0b", "\x0c", "\x1c", "\x1d", "\x1e", "\x85", "\u2028", "\u2029", " ", "\t", ""]
+        texts = []
+        for sp in seps:
+            texts.append("[Trash Info]\nPath=/a\nDeletionDate=2000-01-01T00:00:00" + sp + "\n")
+            texts.append("[Trash Info]\nPath=/a\nX-Note=a" + sp + "DeletionDate=2000-01-01T00:00:00\nDeletionDate=2030-01-01T00:00:00\n")
+            texts.append("[Trash Info]\nPath=/a" + sp + "DeletionDate=2000-01-01T00:00:00\n")
+        rx = _re.compile(r"^(\d{4})-(\d{1,2})-(\d{1,2})[Tt](\d{1,2}):(\d{1,2}):(\d{1,2})$")
+        for t in texts:
+            got = parse_deletion_date(t)
+            first = next((l for l in t.split("\n") if l.startswith("DeletionDate=")), None)
+            want = None
+            if first is not None:
+                mm = rx.match(first[len("DeletionDate="):])
+                if mm:
+                    try:
+                        want = datetime.datetime(*map(int, mm.groups()))
+                    except ValueError:
+                        want = None
+            ck.case(("date-line", t), tags=["date-line:" + ("dated" if got else "undated")])
+            m = drv.ask({"op": "parseDate", "s": hx(t.encode("utf-8"))})
+            if (m["r"] == "date") != (got is not None) or (got is not None and m["date"] != dl(got)):
+                if not any(ord(c) > 127 for c in (first or "")):
+                    ck.disagreement("Model.Date.parseDate vs parse_deletion_date", {"text": t, "impl": str(got), "model": m})
+            if got != want:
+                ck.violation("first-DeletionDate-line-strictly-parsed", {"kind": "date-line"}, {"text": t, "impl": str(got), "want": str(want)})
         ck.traces = len(res)
         ck.exhaustive = False
         ck.extra["exhaustive_subdomains"] = ["boundary grid of %d DAYS x %d now values x deltas x microseconds" % (len(DAYS), len(NOWS))]
